@@ -150,6 +150,57 @@ def make_hschema(name):
     return build_schema(DIRECTIVE_SDL)
 
 
+# ---------------------------------------------------------------- the white-list form of include_custom_schema_directives
+WL_NAMES = ("tag", "other", "deprecated", "skip", "include", "nope")
+WL_SDL = (
+    DIRECTIVE_SDL,
+    'directive @tag(v: Int) on FIELD_DEFINITION | OBJECT | ENUM_VALUE | ARGUMENT_DEFINITION | INPUT_FIELD_DEFINITION | SCHEMA | ENUM | UNION | INTERFACE | SCALAR | INPUT_OBJECT\n'
+    'directive @other on FIELD_DEFINITION | OBJECT | ENUM_VALUE\n'
+    'schema @tag(v: 0) { query: Query }\n'
+    'type Query @tag(v: 1) @other { a(x: Int @tag(v: 3), i: In): E @tag(v: 2) @deprecated(reason: "x") @other b: Int @deprecated c: U d: I s: S }\n'
+    'enum E @tag { X @tag(v: 4) @deprecated Y @other @deprecated(reason: "") Z @other }\n'
+    'input In @tag { f: Int @tag(v: 5) }\nunion U @tag = Query\ninterface I @tag { d: I @other }\nscalar S @tag',
+)
+
+
+def _directive_whitelist(sd: int, wl: int, rev: bool, desc: bool) -> bool:
+    """
+    pre: 0 <= sd < len(WL_SDL) and 0 <= wl < 64
+    post: _
+    """
+    SD, WL = concrete_int(sd, 0, len(WL_SDL) - 1), concrete_int(wl, 0, 63)
+    REV, DESC = (True if rev else False), (True if desc else False)
+    with untraced():
+        schema = build_schema(WL_SDL[SD])
+        names = [n for i, n in enumerate(WL_NAMES) if WL >> i & 1]
+        if REV:
+            names.reverse()
+        custom = [n for n in schema.directives if n not in ("deprecated", "skip", "include")]
+        text = schema.to_string(include_custom_schema_directives=names, include_descriptions=DESC)
+        problem = ""
+        # the white list selects among the CUSTOM directives; it is the documented filter, so it equals True / False when it names all / none of them
+        if all(c in names for c in custom) and text != schema.to_string(include_custom_schema_directives=True, include_descriptions=DESC):
+            problem = "a white list naming every custom directive prints another text than True"
+        elif not any(c in names for c in custom) and text != schema.to_string(include_custom_schema_directives=False, include_descriptions=DESC):
+            problem = "a white list naming no custom directive prints another text than False"
+        if not problem:
+            rebuilt = build_schema(text)
+            if rebuilt.to_string(include_custom_schema_directives=names, include_descriptions=DESC) != text:
+                problem = "the rebuilt schema prints another text"
+            elif text != schema.to_string(include_custom_schema_directives=names, include_descriptions=DESC):
+                problem = "the second call prints another text"
+            else:
+                a, b = code_snapshot(schema), code_snapshot(rebuilt)
+                if not DESC:
+                    a, b = _strip_desc(a), _strip_desc(b)
+                for snap in (a, b):
+                    for n in list(snap["directives"]):
+                        # directive DEFINITIONS that the white list leaves unused are still definitions of the schema and are printed; nothing to strip
+                        pass
+                problem = diff(_sorted(a), _sorted(b))
+    return result(problem == "", WL > 0)
+
+
 def fresh_text(name, oi):
     key = (name, oi)
     if key not in _FRESH:
@@ -255,6 +306,13 @@ def _solve_int_re(tier):
 
 
 CONDITIONS = [
+    Cond(
+        name="directive_whitelist", fn=_directive_whitelist, quick=100, thorough=100,
+        bound="the white-list form of include_custom_schema_directives: 2 SDL-built schemas carrying custom directives on every kind of element next to @deprecated x every subset (both orders) of "
+              "{two custom names, deprecated, skip, include, an unknown name} x descriptions on / off: the text equals the True / False form when the list names all / none of the custom directives, "
+              "the rebuilt schema prints the same text under the same option and is structurally identical, repeated calls agree",
+        symbolic={"sd,wl,rev,desc": "choice"}, witness={"sd": 0, "wl": 5, "rev": False, "desc": True},
+    ),
     Cond(
         name="roundtrip", fn=_roundtrip, quick=150, thorough=600, per_path=60, shards_quick=16, shards_thorough=16,
         bound="SDL-built schemas of the C11 generator (13 default kinds x 4 recursion patterns x 5 root-type naming variants incl. swapped conventional names and a schema extension adding a root) and a code-built schema (enum internal values incl. a tuple, defaults of every input kind, "
